@@ -571,6 +571,47 @@ def _case_ops(ctx, c):
              withcopies, withio)
     ctx.hook("class:" + cls.__name__)
 
+    # ---- label CONTENTS: every taxon id / trait index has one label for the whole history (bijective), drawn from hostile
+    # styles; the labels must survive every operation and every persistence route exactly
+    hostile = g.random() < (0.6 if withio else 0.15)
+    TAXA_STYLES = [("plain", "T%05d"), ("comment/delimiter/quote characters", "F2#%d"), ("comment/delimiter/quote characters", "a,%d"),
+                   ("comment/delimiter/quote characters", "x;%d"), ("comment/delimiter/quote characters", 'q"%d"'),
+                   ("comment/delimiter/quote characters", "it's\t%d"), ("blanks", "sp ace %d"), ("blanks", " lead%d"), ("blanks", "trail%d "),
+                   ("non-ASCII", "\u00e9\u221a\u00df%d"), ("number-like", "%03d"), ("number-like", "1e%d"), ("number-like", "%d.50")]
+    TOKENS = ["nan", "NA", "None", "True", "null", "N/A", "<NA>", "#N/A", "-inf"]
+    LAB = {}; LCLS = {}
+    if hostile:
+        uniform = int(g.integers(len(TAXA_STYLES))) if g.random() < 0.5 else None
+        for i in range(NU):
+            kcl, fmt = TAXA_STYLES[uniform if uniform is not None else int(g.integers(len(TAXA_STYLES)))]
+            LAB[i] = fmt % i; LCLS[LAB[i]] = kcl
+        if uniform is None and g.random() < 0.5:
+            for i, tok in zip(g.choice(NU, 4, replace=False), g.choice(TOKENS, 4, replace=False)):
+                LCLS.pop(LAB[int(i)], None); LAB[int(i)] = str(tok); LCLS[str(tok)] = "missing-value / boolean tokens"
+    else:
+        for i in range(NU):
+            LAB[i] = "T%05d" % i; LCLS[LAB[i]] = "plain"
+    INV = {v: k_ for k_, v in LAB.items()}
+    TRAIT_HOSTILE = ["Y#q", "Y,c", "Y x", " Ya", "Ym ", "Y\u00e9", "007", "1e5", 'Y"z"', "NA", "None;", "True"]
+    TN = list(TNAMES)
+    if hostile and g.random() < 0.6:
+        TN = [str(x) for x in g.choice(TRAIT_HOSTILE, len(TNAMES), replace=False)]
+    TIX = {nm: j for j, nm in enumerate(TN)}
+    ctx.sumnote("histories with hostile label contents", int(hostile))
+
+    def labels(idl):
+        return dict(taxa=numpy.array([LAB[int(i)] for i in idl], dtype=object),
+                    taxa_grp=numpy.array([(int(i) * 7) % 4 for i in idl], dtype="int64"))
+
+    def decode(taxa):
+        return [INV[x] for x in taxa]      # KeyError when a label came back altered (rows are then identified by position)
+
+    def tnames(tl):
+        return numpy.array([TN[j] for j in tl], dtype=object)
+
+    def tdecode(trait):
+        return [TIX[x] for x in trait]
+
     def RAW(idl, tl):
         return U[numpy.ix_(numpy.asarray(idl, dtype=int), numpy.asarray(tl, dtype=int))]
 
@@ -712,7 +753,7 @@ def _case_ops(ctx, c):
             ax = (int(g.choice([1, 1, -1])) if trait_op else int(g.choice([0, 0, -2])))
             gname = op.rsplit("_", 1)[0]
             inplace = gname in ("append", "incorp", "remove", "reorder", "sort", "group")
-            vform = "any"
+            vform = "any"; nolab = False
             exp = list(ids); expt = list(tids)
             if op == "select_taxa":
                 u = g.random()
@@ -940,10 +981,40 @@ def _case_ops(ctx, c):
             # which taxa / traits does the result hold?  (found through the labels, C03 judges the labels themselves)
             try:
                 nrow = int(obj.mat.shape[0]); ncol = int(obj.mat.shape[1])
+            except Exception:
+                nrow, ncol = -1, -1
+            try:
                 lids = decode(obj.taxa) if obj.taxa is not None and len(obj.taxa) == nrow else None
+            except Exception:
+                lids = None
+            try:
                 ltids = tdecode(obj.trait) if obj.trait is not None and len(obj.trait) == ncol else None
             except Exception:
-                nrow, ncol, lids, ltids = -1, -1, None, None
+                ltids = None
+            if io_op and nrow == len(exp) and ncol == len(expt):
+                # persistence keeps order: the labels must come back exactly (same strings, as strings)
+                for what_, want, got in (("taxa", labels(exp)["taxa"].tolist(), None if (nolab or obj.taxa is None) else list(obj.taxa)),
+                                         ("trait", tnames(expt).tolist(), None if obj.trait is None else list(obj.trait))):
+                    if got is None:
+                        if not (what_ == "taxa" and nolab):
+                            ctx.check("C15.ops", False, site, "%s labels come back exactly" % what_, "labels lost", coords=coords,
+                                      witness={"history": list(hist), "expected": want})
+                        continue
+                    skip = set()
+                    if op == "csv round trip" and what_ == "taxa":
+                        # CSV is untyped text read with pandas defaults: a label column that consists only of number-like strings is
+                        # read as numbers ('007' -> 7.0) and pandas' missing-value tokens ('NA', 'None', 'nan', 'null', ...) are read
+                        # as NaN.  Out of the domain of C15 (counted); label fidelity of text files belongs to C16.
+                        skip = {i_ for i_, w_ in enumerate(want) if LCLS.get(w_) in ("number-like", "missing-value / boolean tokens")}
+                        nsk = sum(1 for i_ in skip if not (isinstance(got[i_], str) and got[i_] == want[i_]))
+                        if nsk:
+                            ctx.sumnote("CSV: number-like / NA-token taxa labels read back altered (out of domain, counted)", nsk)
+                    bad = next((i_ for i_, (w_, g_) in enumerate(zip(want, got)) if i_ not in skip and not (isinstance(g_, str) and g_ == w_)), None)
+                    lc = "any" if bad is None else (LCLS.get(want[bad], "hostile trait name") if what_ == "taxa" else
+                                                    ("plain" if want[bad] in TNAMES else "hostile trait name"))
+                    ctx.check("C15.ops", bad is None, site, "%s labels come back exactly" % what_, "label contents: " + lc,
+                              witness=None if bad is None else {"history": list(hist), "expected": want, "got": [repr(x) for x in got],
+                                                                "first_bad": bad}, coords=coords)
             if lids is None:
                 lids = list(exp)
                 ctx.sumnote("result without usable taxa labels (rows identified by position)")
@@ -955,7 +1026,7 @@ def _case_ops(ctx, c):
             elif ltids != expt:
                 ctx.sumnote("trait order differs from the harness model")
             w0 = {"history": list(hist), "class": cls.__name__, "initial_taxa": ids0, "initial_traits": tnames(tids0), "initial_raw": RAW(ids0, tids0),
-                  "column_classes_by_trait": dict(zip(TNAMES, ccs))}
+                  "column_classes_by_trait": dict(zip(TN, ccs))}
             if nrow != len(exp) or sorted(lids) != sorted(exp) or ncol != len(expt) or sorted(ltids) != sorted(expt):
                 ctx.check("C15.ops", False, site, "result holds exactly the requested taxa and traits", vform,
                           witness=dict(w0, expected_taxa=exp, labels=lids, nrows=nrow, expected_traits=tnames(expt), trait_labels=tnames(ltids),
@@ -976,7 +1047,7 @@ def _case_ops(ctx, c):
             if not (mok and vok):
                 i, j = first if first else (0, 0)
                 w = dict(w0, taxa=lids, traits=tnames(ltids),
-                         first_bad={"row": i, "trait": TNAMES[ltids[j]] if j < len(ltids) else j, "taxon": lids[i] if i < len(lids) else None,
+                         first_bad={"row": i, "trait": TN[ltids[j]] if j < len(ltids) else j, "taxon": lids[i] if i < len(lids) else None,
                                     "source_array_type": {"d": "float64", "f": "float32", "i": "int64"}[str(src[lids[i]])] if i < len(lids) else None},
                          source_types="".join(src[lids].tolist()), result_dtype=str(getattr(obj.mat, "dtype", None)),
                          raw_row=R[i] if R.size else None, unscaled_row=un[i] if un.ndim == 2 and un.shape[0] > i else None,
@@ -1016,8 +1087,10 @@ def _case_ops(ctx, c):
                 # a result built by the standardising constructor is that constructor's responsibility
                 check_stored(ctx, obj, R, sts, mg, k, site0 if _FN[0] > fn0 else site, coords, derived=True, prec=prec_of(lids))
             check_stats(ctx, obj, R, sts, mg, k, coords, tag, prec_of(lids))
-            if obj.taxa is None and io_op:
-                # read back without label columns: the user puts the labels back (rows were identified by position)
+            relabel = io_op and obj.taxa is not None and [x for x in obj.taxa] != labels(lids)["taxa"].tolist()
+            if (obj.taxa is None or relabel) and io_op:
+                # read back without label columns (or, from text, with altered labels - judged above): the user puts the labels
+                # back (rows were identified by position)
                 try:
                     lb = labels(lids); obj.taxa = lb["taxa"]; obj.taxa_grp = lb["taxa_grp"]
                 except Exception as e:
